@@ -328,6 +328,51 @@ func genHistory(g *common.Gen, r *common.Rand) {
 			}
 			continue
 		}
+		if r.Chance(1, 16) {
+			// the answer arrives from within the face's Send (loopback), or the Send fails
+			node := relatedName()
+			if len(node) == 0 {
+				node = uni(1, 2)
+			}
+			cbp := r.Chance(2, 5)
+			life := int64(r.Range(20000, 300000))
+			for !dummyClock && fires[t+life+marginUs] {
+				life++
+			}
+			label := "i" + strconv.Itoa(nExpr)
+			nExpr++
+			fires[t+life+marginUs] = true
+			if t+life > maxDeadline {
+				maxDeadline = t + life
+			}
+			if r.Chance(1, 4) {
+				g.Op("expressf %s %s %d %d @%d", label, common.NameText(node), b2i(cbp), life, t)
+				g.Stat("op-expressf")
+				pend = append(pend, gPend{label, node, node, t + life + marginUs})
+				continue
+			}
+			final := node
+			aname := clone(node)
+			if cbp && r.Chance(1, 2) {
+				aname = append(aname, common.Pick(r, alpha))
+			}
+			v := r.Intn(2)
+			if r.Chance(1, 4) {
+				dv := v
+				if r.Chance(1, 4) {
+					dv = 1 - v // a digest the looped Data does not have: stays pending
+				}
+				final = append(clone(node), digestComp(digestOf(dataWire(aname, dv))))
+			}
+			if r.Chance(1, 5) {
+				g.Op("expressl %s %s %d %d N %s - 0 w%d @%d", label, common.NameText(final), b2i(cbp), life, common.NameText(final), 1+r.Intn(2), t)
+			} else {
+				g.Op("expressl %s %s %d %d D %s %s %d w%d @%d", label, common.NameText(final), b2i(cbp), life,
+					common.NameText(aname), common.Hex(digestOf(dataWire(aname, v))), v, pickWrap(r), t)
+			}
+			g.Stat("op-expressl")
+			continue
+		}
 		if r.Chance(1, 14) {
 			base := uni(1, 2)
 			kind := common.Pick(r, []string{"none", "sha", "ecc", "ecc", "short", "short"})
@@ -587,6 +632,36 @@ type sentRec struct {
 	wire []byte
 }
 
+// hookFace is the dummy face of std/engine/dummy with two switches used by single ops: `fail` makes
+// Send return an error (a face that cannot send), `answer` makes Send deliver that packet to the
+// engine from WITHIN Send, after the Interest has been queued — what a loopback / very fast
+// producer does (the dummy face alone can never answer before Express has returned).
+type hookFace struct {
+	*dummy.DummyFace
+	onPkt  func(r enc.ParseReader) error
+	fail   bool
+	answer []byte
+}
+
+func (f *hookFace) SetCallback(onPkt func(r enc.ParseReader) error, onError func(err error) error) {
+	f.onPkt = onPkt
+	f.DummyFace.SetCallback(onPkt, onError)
+}
+
+func (f *hookFace) Send(pkt enc.Wire) error {
+	if f.fail {
+		return fmt.Errorf("harness: the face cannot send")
+	}
+	if err := f.DummyFace.Send(pkt); err != nil {
+		return err
+	}
+	if a := f.answer; a != nil {
+		f.answer = nil
+		return f.onPkt(enc.NewBufferReader(a))
+	}
+	return nil
+}
+
 type rxRec struct {
 	name  enc.Name
 	reply ndn.WireReplyFunc
@@ -595,7 +670,7 @@ type rxRec struct {
 type hist struct {
 	start  time.Time
 	dt     *dummy.Timer // nil: real basic.Timer under synctest
-	face   *dummy.DummyFace
+	face   *hookFace
 	eng    *basic.Engine
 	mu     sync.Mutex
 	events []event
@@ -638,7 +713,7 @@ func (h *hist) drainFace() int {
 
 func newHist(dummyClock bool) *hist {
 	h := &hist{start: time.Now(), rx: map[string]rxRec{}, sent: map[string]sentRec{}}
-	h.face = dummy.NewDummyFace()
+	h.face = &hookFace{DummyFace: dummy.NewDummyFace()}
 	passAll := func(enc.Name, enc.Wire, ndn.Signature) bool { return true }
 	var timer ndn.Timer = basic.NewTimer()
 	if dummyClock {
@@ -739,7 +814,31 @@ func (h *hist) execOp(op string) string {
 	h.drainFace()
 	res := "bad-op"
 	switch f[0] {
-	case "express":
+	case "express", "expressl", "expressf":
+		// expressl: the answer (Data or Nack) comes back from WITHIN the face's Send;
+		// expressf: the face's Send fails
+		if f[0] == "expressl" {
+			aname := common.ParseNameText(f[6])
+			if f[5] == "N" {
+				nit, err := spec.Spec{}.MakeInterest(aname, &ndn.InterestConfig{Nonce: utils.IdPtr(uint64(7))}, nil, nil)
+				if err != nil {
+					return "pre=" + pre + " res=make-err cb=-"
+				}
+				m := wrapMode(f[9])
+				if m == 0 {
+					m = 1
+				}
+				h.face.answer = lpWrap(nit.Wire.Join(), m, true)
+			} else {
+				w := dataWire(aname, common.Atoi(f[8]))
+				if common.Hex(digestOf(w)) != f[7] {
+					return "pre=" + pre + " res=bad-digest cb=-"
+				}
+				h.face.answer = lpWrap(w, wrapMode(f[9]), false)
+			}
+		}
+		h.face.fail = f[0] == "expressf"
+		defer func() { h.face.fail, h.face.answer = false, nil }()
 		label, name, cbp := f[1], common.ParseNameText(f[2]), f[3] == "1"
 		cfg := &ndn.InterestConfig{CanBePrefix: cbp}
 		if f[4] != "-" {
@@ -763,6 +862,8 @@ func (h *hist) execOp(op string) string {
 			res = "ok"
 		case err == nil:
 			res = "ok-tx" + strconv.Itoa(tx)
+		case f[0] == "expressf" && tx == 0 && len(name) > 0:
+			res = "senderr"
 		default:
 			res = "err"
 		}
